@@ -8,8 +8,15 @@ package main
 // driver sees the folder, not the history (chunk names are UUIDs chosen by the engine).
 //
 // ops:   case N <kind> maxFileSize=… saves=…
-//        mig DIR v=<0|1> d=<0|1> r=<0|1> fault=<none|load|write|verify|unlink:K> | name=NAME | folder=<file:key=hash,…;…>
-// reply: res=<success|skipped|failed:PHASE> v1=<same|gone|left:K> hyd=<0|1> load=<match|dup-ok|none|DIFF…> name=<ok|na|BAD…>
+//        mig DIR v=<0|1> d=<0|1> r=<0|1> fault=<none|load|write:K|verify|dropkey|unlink:K|…> pre=<none|valid|stub|junk> | name=NAME | folder=<file:key=hash,…;…>
+// reply: res=<success|skipped|failed:PHASE> v1=<same|gone|left:K> hyd=<0|1|kept> load=<match|dup-ok|none|DIFF…> name=<ok|na|BAD…>
+//
+//   pre = what is at the target path (<folder>.hyd) before the run: nothing; a valid V2 file of another swamp name holding a
+//   record the folder does not have and a newer value of one it has; a header-only file (an interrupted earlier run); ten bytes of junk.
+//   hyd=kept: that file is still there, byte for byte.
+//   fault=dropkey: between writing and verifying (hook migrate.written) the new file is replaced by a valid one that lacks one key.
+//   name: the swamp name read back from the migrated file is compared byte for byte with the name the harness itself decoded from the
+//   V1 meta file (names are mixed-case, non-ASCII, long).
 //
 //   load = comparison, record by record (gob bytes of the whole treasure, not just keys), of what the
 //   real V2 chronicler loads from the migrated file with what the real V1 chronicler loaded from the
@@ -19,6 +26,7 @@ package main
 
 import (
 	"bufio"
+	"time"
 	"bytes"
 	"crypto/sha1"
 	"encoding/binary"
@@ -48,6 +56,7 @@ import (
 	"github.com/hydraide/hydraide/app/core/hydra/swamp/treasure"
 	"github.com/hydraide/hydraide/app/core/hydra/swamp/treasure/guard"
 	"github.com/hydraide/hydraide/app/name"
+	"github.com/hydraide/hydraide/app/verifhook"
 )
 
 func init() {
@@ -207,6 +216,10 @@ func c23FolderText(fs []c23File) string {
 	for _, f := range fs {
 		var ss []string
 		for _, s := range f.segs {
+			if len(s.key) > 200 { // L<length>x<hash of the key>: the model needs the length only
+				ss = append(ss, fmt.Sprintf("L%dx%s=%s", len(s.key), c23Hash([]byte(s.key)), s.hash))
+				continue
+			}
 			ss = append(ss, hex.EncodeToString([]byte(s.key))+"="+s.hash)
 		}
 		parts = append(parts, f.name+":"+strings.Join(ss, ","))
@@ -250,8 +263,69 @@ func c23LoadV2(path string) map[string]string {
 
 // ---- generator ----------------------------------------------------------------------
 
+// a scratch area of its own for every run (two runs with the same seed must not share folders); checks/C23.py removes it
+// when nothing failed, and what an interrupted run left behind goes after six hours
 func c23Base(seed int64, tier string) string {
-	return filepath.Join(os.TempDir(), fmt.Sprintf("hv-c23-%d-%s", seed, tier))
+	if old, err := filepath.Glob(filepath.Join(os.TempDir(), "hv-c23-*")); err == nil {
+		for _, o := range old {
+			if st, err := os.Stat(o); err == nil && time.Since(st.ModTime()) > 6*time.Hour {
+				_ = os.RemoveAll(o)
+			}
+		}
+	}
+	dir, err := os.MkdirTemp("", fmt.Sprintf("hv-c23-%d-%s-", seed, tier))
+	if err != nil {
+		dir = filepath.Join(os.TempDir(), fmt.Sprintf("hv-c23-%d-%s-%d", seed, tier, os.Getpid()))
+		_ = os.MkdirAll(dir, 0o755)
+	}
+	return dir
+}
+
+// the swamp name as stored in the V1 meta file, decoded by the harness itself
+func c23MetaName(swamp string) (string, bool) {
+	fh, err := os.Open(filepath.Join(swamp, metadata.MetaFile))
+	if err != nil {
+		return "", false
+	}
+	defer fh.Close()
+	var m struct{ SwampName string }
+	if err := gob.NewDecoder(fh).Decode(&m); err != nil {
+		return "", false
+	}
+	return m.SwampName, true
+}
+
+// swamp names: the name is free text for the migrator — case, non-ASCII bytes and length must survive
+func c23Name(rng *rand.Rand, ci int) string {
+	switch ci % 5 {
+	case 1:
+		return fmt.Sprintf("C23/CaSe/MixedCase-N%d", ci)
+	case 2:
+		return fmt.Sprintf("c23-ügyfél/Ünnep-日本/ñ%d-ÅÄÖ-İı", ci)
+	case 3:
+		return fmt.Sprintf("%s/%s/n%d", strings.Repeat("Sanctuary", 20+rng.Intn(40)), strings.Repeat("r", 255), ci)
+	case 4:
+		return fmt.Sprintf("c23.%d/Case_%d/n-%d~+=@", ci, ci, ci)
+	}
+	return fmt.Sprintf("c23/case/n%d", ci)
+}
+
+// c23AppendRaw appends a hand-made record to the first chunk of a folder, bypassing the swamp's bookkeeping
+func c23AppendRaw(swamp, key, content string) {
+	t := treasure.New(nil)
+	g := t.StartTreasureGuard(true, guard.BodyAuthID)
+	t.BodySetKey(g, key)
+	t.SetContentString(g, content)
+	bs, _ := t.ConvertToByte(g)
+	t.ReleaseTreasureGuard(g)
+	fsys := filesystem.New()
+	ents, _ := os.ReadDir(swamp)
+	for _, e := range ents {
+		if e.Name() != metadata.MetaFile {
+			_ = fsys.SaveFile(filepath.Join(swamp, e.Name()), [][]byte{bs}, true)
+			break
+		}
+	}
 }
 
 func c23Gen(rng *rand.Rand, tier string, w *bufio.Writer) {
@@ -262,8 +336,6 @@ func c23Gen(rng *rand.Rand, tier string, w *bufio.Writer) {
 	}
 	seed := rng.Int63() // names the scratch area; all other choices come from rng as well
 	base := c23Base(seed%100000, tier)
-	_ = os.RemoveAll(base)
-	_ = os.MkdirAll(base, 0o755)
 	combos := [][3]int{}
 	for v := 0; v < 2; v++ {
 		for d := 0; d < 2; d++ {
@@ -279,12 +351,21 @@ func c23Gen(rng *rand.Rand, tier string, w *bufio.Writer) {
 			kind = "empty"
 		case ci == 1:
 			kind = "overflow" // the recorded chunk-overflow history
+		case ci == 3:
+			kind = "badkey-empty" // hand-made: a record with an empty key (the V2 format cannot carry it)
+		case ci == 4:
+			kind = "badkey-long" // hand-made: a record with a key of 70000 bytes (the V2 key length field has 16 bits)
+		case ci == 5:
+			kind = "longname" // a swamp name of 70000 bytes (the V2 name length field has 16 bits)
 		case ci%9 == 2:
 			kind = "synthetic-dup" // hand-made: a key twice inside one chunk
 		}
 		dir := filepath.Join(base, fmt.Sprintf("case-%03d", ci), "data", "1", "ab", "cd")
 		swamp := filepath.Join(dir, "swamp")
-		nm := fmt.Sprintf("c23/case/n%d", ci)
+		nm := c23Name(rng, ci)
+		if kind == "longname" {
+			nm = strings.Repeat("N", 30000) + "/" + strings.Repeat("a", 30000) + "/" + strings.Repeat("m", 10000)
+		}
 		sizes := []int64{40, 120, 400, 8192}
 		mfs := sizes[rng.Intn(len(sizes))]
 		saves := 0
@@ -310,21 +391,21 @@ func c23Gen(rng *rand.Rand, tier string, w *bufio.Writer) {
 			v := c23NewV1(swamp, nm, 8192)
 			v.save([][2]string{{"a", "1"}, {"b", "1"}}, nil)
 			// append a second version of "a" to the same chunk, bypassing the swamp's bookkeeping
-			t := treasure.New(nil)
-			g := t.StartTreasureGuard(true, guard.BodyAuthID)
-			t.BodySetKey(g, "a")
-			t.SetContentString(g, "2")
-			bs, _ := t.ConvertToByte(g)
-			t.ReleaseTreasureGuard(g)
-			fsys := filesystem.New()
-			ents, _ := os.ReadDir(swamp)
-			for _, e := range ents {
-				if e.Name() != metadata.MetaFile {
-					_ = fsys.SaveFile(filepath.Join(swamp, e.Name()), [][]byte{bs}, true)
-					break
-				}
+			c23AppendRaw(swamp, "a", "2")
+			saves = 2
+		case "badkey-empty", "badkey-long":
+			v := c23NewV1(swamp, nm, 8192)
+			v.save([][2]string{{"a", "1"}, {"b", "1"}}, nil)
+			if kind == "badkey-empty" {
+				c23AppendRaw(swamp, "", "x")
+			} else {
+				c23AppendRaw(swamp, strings.Repeat("K", 70000), "x")
 			}
 			saves = 2
+		case "longname":
+			v := c23NewV1(swamp, nm, 8192)
+			v.save([][2]string{{"a", "1"}, {"b", "1"}}, nil)
+			saves = 1
 		default:
 			v := c23NewV1(swamp, nm, mfs)
 			nKeys := 2 + rng.Intn(24)
@@ -359,43 +440,191 @@ func c23Gen(rng *rand.Rand, tier string, w *bufio.Writer) {
 			fmt.Fprintf(w, "gen-error %v\n", err)
 			continue
 		}
-		tail := fmt.Sprintf("| name=%s | folder=%s", nm, c23FolderText(fo))
+		if onDisk, ok := c23MetaName(swamp); !ok || onDisk != nm {
+			fmt.Fprintf(w, "gen-error the V1 engine stored another swamp name than the one it was given (%d bytes vs %d)\n", len(onDisk), len(nm))
+			continue
+		}
+		opName := nm
+		if len(nm) > 1000 { // L<length>x<hash>: the model needs the length only; the runner reads the name from the meta file
+			opName = fmt.Sprintf("L%dx%s", len(nm), c23Hash([]byte(nm)))
+		}
+		tail := fmt.Sprintf("| name=%s | folder=%s", opName, c23FolderText(fo))
 		root := filepath.Dir(filepath.Dir(filepath.Dir(filepath.Dir(dir)))) // …/case-NNN
 		// every option combination without a fault
 		for _, c := range combos {
-			fmt.Fprintf(w, "mig %s v=%d d=%d r=%d fault=none %s\n", root, c[0], c[1], c[2], tail)
+			fmt.Fprintf(w, "mig %s v=%d d=%d r=%d fault=none pre=none %s\n", root, c[0], c[1], c[2], tail)
+		}
+		// a target path that is not free: every third folder (and the special ones), with and without a failure
+		if ci%3 == 1 || ci < 6 {
+			for _, pre := range []string{"valid", "stub", "junk"} {
+				for _, c := range [][3]int{{1, 1, 0}, {0, 1, 0}, {1, 0, 0}, {1, 1, 1}} {
+					fmt.Fprintf(w, "mig %s v=%d d=%d r=%d fault=none pre=%s %s\n", root, c[0], c[1], c[2], pre, tail)
+				}
+				if pre != "junk" {
+					if tier == "thorough" || ci < 15 {
+						fmt.Fprintf(w, "mig %s v=1 d=1 r=0 fault=write:3 pre=%s %s\n", root, pre, tail)
+					}
+					fmt.Fprintf(w, "mig %s v=1 d=1 r=0 fault=dropkey pre=%s %s\n", root, pre, tail)
+				}
+			}
+		}
+		// a verification that really misses a key (in-process: the hook between write and verify swaps the file)
+		if ci%2 == 1 || ci < 6 {
+			for _, c := range [][3]int{{1, 1, 0}, {1, 0, 0}} {
+				fmt.Fprintf(w, "mig %s v=%d d=%d r=%d fault=dropkey pre=none %s\n", root, c[0], c[1], c[2], tail)
+			}
 		}
 		// injected failures (each on the combinations where the step exists)
 		nChunks := len(fo)
-		faults := []string{"write:1", "write:2", "write:3", "verify"}
-		if nChunks > 1 { // at least one chunk file besides the meta file
+		faults := []string{"write:1", "write:2", "write:3", "verify", "meta", "rmdir"}
+		nData := nChunks - 1 // chunk files besides the meta file
+		if nData >= 1 {
 			faults = append(faults, "load")
+			ks := []int{nData - 1}
+			if tier == "thorough" { // first, second, middle, last chunk
+				ks = c23Picks(nData)
+			}
+			for _, k := range ks {
+				faults = append(faults, fmt.Sprintf("load:%d", k), fmt.Sprintf("read:%d", k))
+			}
 		}
-		for k := 0; k < nChunks && k < 3; k++ {
-			faults = append(faults, fmt.Sprintf("unlink:%d", k))
+		uks := []int{0, 1, 2}
+		if tier == "thorough" {
+			uks = c23Picks(nChunks)
 		}
-		if tier != "thorough" && !(ci < 24 && ci%3 == 1) {
-			continue // quick tier: fault runs (one strace'd process each) on eight folders
+		for _, k := range uks {
+			if k < nChunks {
+				faults = append(faults, fmt.Sprintf("unlink:%d", k))
+			}
 		}
-		if tier == "thorough" && ci > 8 && ci%2 == 0 {
-			continue // thorough tier: every second folder
+		if tier != "thorough" && !(ci < 15 && ci%3 == 1) {
+			continue // quick tier: fault runs (one strace'd process each) on five folders
+		}
+		if tier == "thorough" && ci > 8 && ci%4 != 1 {
+			continue // thorough tier: the first nine folders and every fourth after them
 		}
 		fcombos := [][3]int{{1, 1, 0}, {0, 1, 0}, {1, 0, 0}}
+		if tier != "thorough" {
+			fcombos = fcombos[:2] // every fault run is a worker process (most under strace)
+		}
 		for _, ft := range faults {
 			for _, c := range fcombos {
 				if ft == "verify" && c[0] == 0 {
 					continue
 				}
-				if strings.HasPrefix(ft, "unlink") && c[1] == 0 {
+				if (strings.HasPrefix(ft, "unlink") || ft == "rmdir") && c[1] == 0 {
 					continue
 				}
-				fmt.Fprintf(w, "mig %s v=%d d=%d r=%d fault=%s %s\n", root, c[0], c[1], c[2], ft, tail)
+				fmt.Fprintf(w, "mig %s v=%d d=%d r=%d fault=%s pre=none %s\n", root, c[0], c[1], c[2], ft, tail)
 			}
 		}
 	}
 }
 
+// first, second, middle and last of n positions
+func c23Picks(n int) []int {
+	var out []int
+	for _, k := range []int{0, 1, n / 2, n - 1} {
+		dup := k < 0 || k >= n
+		for _, o := range out {
+			if o == k {
+				dup = true
+			}
+		}
+		if !dup {
+			out = append(out, k)
+		}
+	}
+	return out
+}
+
 // ---- runner ----------------------------------------------------------------------------
+
+const c23PreName = "other/swamp/name"
+
+// c23Plant puts a file at the target path before the migration
+func c23Plant(hyd, kind, swampName string, fo []c23File) {
+	switch kind {
+	case "valid":
+		// what a V2 engine leaves after an earlier migration without DeleteOld: another name in the header, a record the
+		// folder does not have, and a newer value of the first key the folder has
+		w, err := v2.NewFileWriterWithName(hyd, v2.DefaultMaxBlockSize, c23PreName)
+		if err != nil {
+			return
+		}
+		mk := func(key string) []byte {
+			t := treasure.New(nil)
+			g := t.StartTreasureGuard(true, guard.BodyAuthID)
+			t.BodySetKey(g, key)
+			t.SetContentString(g, "written-by-the-v2-engine")
+			bs, _ := t.ConvertToByte(g)
+			t.ReleaseTreasureGuard(g)
+			return bs
+		}
+		_ = w.WriteEntry(v2.Entry{Operation: v2.OpInsert, Key: "zz-only-in-v2", Data: mk("zz-only-in-v2")})
+		for _, f := range fo {
+			if len(f.segs) > 0 && f.segs[0].key != "" && len(f.segs[0].key) < 1000 {
+				_ = w.WriteEntry(v2.Entry{Operation: v2.OpInsert, Key: f.segs[0].key, Data: mk(f.segs[0].key)})
+				break
+			}
+		}
+		_ = w.Close()
+	case "stub":
+		if len(swampName) > 65535 {
+			swampName = swampName[:100]
+		}
+		if w, err := v2.NewFileWriterWithName(hyd, v2.DefaultMaxBlockSize, swampName); err == nil {
+			_ = w.Close()
+		}
+	case "junk":
+		_ = os.WriteFile(hyd, []byte("not-a-hyd!"), 0o644)
+	}
+}
+
+// fault=dropkey: the handler of hook migrate.written replaces the file just written by a valid one without its last key
+var c23Drop sync.Map // .hyd path → true
+
+func c23DropKey(hyd string) {
+	r, err := v2.NewFileReader(hyd)
+	if err != nil {
+		return
+	}
+	nm := r.GetSwampName()
+	var es []v2.Entry
+	_, _ = r.ReadAllEntries(func(e v2.Entry) bool { es = append(es, e); return true })
+	_ = r.Close()
+	if len(es) == 0 {
+		return
+	}
+	victim := es[len(es)-1].Key
+	_ = os.Remove(hyd)
+	w, err := v2.NewFileWriterWithName(hyd, v2.DefaultMaxBlockSize, nm)
+	if err != nil {
+		return
+	}
+	for _, e := range es {
+		if e.Key != victim {
+			_ = w.WriteEntry(e)
+		}
+	}
+	_ = w.Close()
+}
+
+func c23Hook() {
+	verifhook.SetHandler(func(name string, args ...any) {
+		if os.Getenv("C23_DEBUG") != "" {
+			fmt.Fprintln(os.Stderr, "C23 hook", name, args)
+		}
+		if name != "migrate.written" || len(args) != 1 {
+			return
+		}
+		if p, ok := args[0].(string); ok {
+			if _, hit := c23Drop.LoadAndDelete(p); hit {
+				c23DropKey(p)
+			}
+		}
+	})
+}
 
 func c23CopyTree(src, dst string) error {
 	return filepath.Walk(src, func(p string, info os.FileInfo, err error) error {
@@ -485,7 +714,7 @@ func c23Worker(in *bufio.Scanner, w *bufio.Writer) {
 
 // c23Child runs the migration in a worker process, under strace when a syscall is to fail.
 // Every injection is `when=1` on one path: strace counts per thread, and a Go program may move between threads.
-func c23Child(dataPath, swamp string, v, d, r string, fault string, files []string, chunks []string, name string) string {
+func c23Child(dataPath, swamp string, v, d, r string, fault string, files []string, chunks []string, name string, preSize int) string {
 	exe, _ := os.Executable()
 	hyd := swamp + ".hyd"
 	var st []string
@@ -493,10 +722,28 @@ func c23Child(dataPath, swamp string, v, d, r string, fault string, files []stri
 	switch {
 	case fault == "load":
 		st = []string{"-e", "trace=openat", "-e", "inject=openat:error=EIO:when=1", "-P", filepath.Join(swamp, chunks[0])}
+	case strings.HasPrefix(fault, "load:"), strings.HasPrefix(fault, "read:"):
+		// the k-th chunk cannot be opened / cannot be read
+		var k int
+		fmt.Sscanf(fault[5:], "%d", &k)
+		if k >= len(chunks) {
+			k = len(chunks) - 1
+		}
+		if strings.HasPrefix(fault, "load:") {
+			st = []string{"-e", "trace=openat", "-e", "inject=openat:error=EIO:when=1", "-P", filepath.Join(swamp, chunks[k])}
+		} else {
+			st = []string{"-e", "trace=read,pread64", "-e", "inject=read,pread64:error=EIO:when=1", "-P", filepath.Join(swamp, chunks[k])}
+		}
+	case fault == "meta": // the meta file (the only place the swamp name is stored) cannot be opened
+		st = []string{"-e", "trace=openat", "-e", "inject=openat:error=EIO:when=1+", "-P", filepath.Join(swamp, metadata.MetaFile)}
+	case fault == "rmdir": // every file goes, removing the folder itself fails (both the unlink and the rmdir attempt)
+		st = []string{"-e", "trace=unlinkat,unlink,rmdir", "-e", "inject=unlinkat,unlink,rmdir:error=EIO:when=1+", "-P", swamp}
 	case fault == "write:1": // the file header, inside NewFileWriterWithName
 		st = []string{"-e", "trace=write,pwrite64", "-e", "inject=write,pwrite64:error=EIO:when=1", "-P", hyd}
 	case fault == "write:2": // the swamp name after the header, still inside NewFileWriterWithName
 		fsize = 64 + len(name)/2
+	case fault == "write:3" && preSize > 0: // appending to a file that was there: the first block
+		fsize = preSize + 8
 	case fault == "write:3": // the first block
 		fsize = 64 + len(name) + 8
 	case fault == "verify": // the writer never reads the .hyd file: the first read of that path is the verifying reader
@@ -527,6 +774,8 @@ func c23Child(dataPath, swamp string, v, d, r string, fault string, files []stri
 
 func c23Run(in *bufio.Scanner, w *bufio.Writer) {
 	c23Quiet()
+	c23Hook()
+	defer verifhook.SetHandler(nil)
 	scratch, _ := os.MkdirTemp("", "hv-c23-run-")
 	defer os.RemoveAll(scratch)
 	var lines []string
@@ -535,12 +784,12 @@ func c23Run(in *bufio.Scanner, w *bufio.Writer) {
 	}
 	out := make([]string, len(lines))
 	// every migration works on its own copy of its folder: run them on a small worker pool
-	k := runtime.NumCPU() / 3
+	k := runtime.NumCPU() / 2 // most of the time goes to starting strace'd worker processes, which mostly wait
 	if k < 1 {
 		k = 1
 	}
-	if k > 6 {
-		k = 6
+	if k > 10 {
+		k = 10
 	}
 	jobs := make(chan int)
 	var wg sync.WaitGroup
@@ -573,11 +822,11 @@ func c23Run(in *bufio.Scanner, w *bufio.Writer) {
 func c23One(scratch string, n int, line string) string {
 	parts := strings.Split(line, " | ")
 	f := strings.Split(parts[0], " ")
-	if len(f) != 6 || len(parts) != 3 {
+	if len(f) != 7 || len(parts) != 3 {
 		return "bad-op"
 	}
 	src, v, d, r, fault := f[1], strings.TrimPrefix(f[2], "v="), strings.TrimPrefix(f[3], "d="), strings.TrimPrefix(f[4], "r="), strings.TrimPrefix(f[5], "fault=")
-	wantName := strings.TrimPrefix(parts[1], "name=")
+	pre := strings.TrimPrefix(f[6], "pre=")
 	root := filepath.Join(scratch, fmt.Sprintf("m%05d", n))
 	if err := c23CopyTree(src, root); err != nil {
 		return "copy-error"
@@ -586,6 +835,11 @@ func c23One(scratch string, n int, line string) string {
 	swamp := c23FindSwamp(root)
 	if swamp == "" {
 		return "no-swamp"
+	}
+	// the name to be preserved: what the V1 meta file holds, byte for byte
+	wantName, ok := c23MetaName(swamp)
+	if !ok {
+		return "no-meta-name"
 	}
 	before := c23DirState(swamp)
 	fo, err := c23ReadFolder(swamp)
@@ -599,20 +853,33 @@ func c23One(scratch string, n int, line string) string {
 			chunks = append(chunks, x.name)
 		}
 	}
-	res := ""
-	if fault == "none" {
-		res = c23Migrate(filepath.Join(root, "data"), v == "1", d == "1", r == "1")
-	} else {
-		if fault == "load" && len(chunks) == 0 {
-			fault = "none"
-			res = c23Migrate(filepath.Join(root, "data"), v == "1", d == "1", r == "1")
+	hydPath := swamp + ".hyd"
+	preHash, preSize := "", 0
+	if pre != "none" {
+		c23Plant(hydPath, pre, wantName, fo)
+		if b, err := os.ReadFile(hydPath); err == nil {
+			preHash, preSize = c23Hash(b), len(b)
 		} else {
-			var files []string
-			for _, x := range fo {
-				files = append(files, x.name)
-			}
-			res = c23Child(filepath.Join(root, "data"), swamp, v, d, r, fault, files, chunks, wantName)
+			return "plant-error"
 		}
+	}
+	res := ""
+	switch {
+	case fault == "none":
+		res = c23Migrate(filepath.Join(root, "data"), v == "1", d == "1", r == "1")
+	case fault == "dropkey":
+		c23Drop.Store(hydPath, true)
+		res = c23Migrate(filepath.Join(root, "data"), v == "1", d == "1", r == "1")
+		c23Drop.Delete(hydPath)
+	case (fault == "load" || strings.HasPrefix(fault, "load:") || strings.HasPrefix(fault, "read:")) && len(chunks) == 0:
+		fault = "none"
+		res = c23Migrate(filepath.Join(root, "data"), v == "1", d == "1", r == "1")
+	default:
+		var files []string
+		for _, x := range fo {
+			files = append(files, x.name)
+		}
+		res = c23Child(filepath.Join(root, "data"), swamp, v, d, r, fault, files, chunks, wantName, preSize)
 	}
 	// V1 files afterwards
 	after := c23DirState(swamp)
@@ -631,6 +898,10 @@ func c23One(scratch string, n int, line string) string {
 	}
 	hyd := "0"
 	load, nameRes := "none", "na"
+	if b, err := os.ReadFile(hydPath); err == nil && preHash != "" && c23Hash(b) == preHash && len(b) == preSize {
+		// the file that was there before the run is still there, untouched
+		return fmt.Sprintf("res=%s v1=%s hyd=kept load=none name=na", res, v1st)
+	}
 	if _, err := os.Stat(swamp + ".hyd"); err == nil {
 		hyd = "1"
 		if strings.HasPrefix(res, "failed") {
